@@ -9,6 +9,7 @@
 #include <deque>
 #include <functional>
 #include <map>
+#include <set>
 #include <string>
 #include <vector>
 
@@ -145,6 +146,8 @@ class Kernel {
   struct Installed { int fd; uint64_t tag; int closes = 0; bool open = true; };
   std::vector<Installed> installed;    // every descriptor number handed to SUT code via recvmsg
   std::map<int, size_t> installed_open;  // fd -> index into installed, while open
+  std::set<int> installed_closed;        // numbers of passed descriptors the SUT has closed and that have not been issued again
+  uint64_t passed_fd_double_closes = 0;  // close() of such a number: a passed descriptor closed twice
   uint64_t next_install_tag = 1;
 
   // ---- processes
